@@ -44,7 +44,7 @@ Import ListNotations.
 Open Scope Z_scope.
 Definition D := mkDy.
 (* exact floor(log2 v) of a positive dyadic: the unique p with 2^p <= v < 2^(p+1) *)
-Definition ilog2_dy (a : Dy) : Z := Z.log2 (Z.abs (dm a)) + de a.
+Definition ilog2_dy := Dy_ilog2.
 (* core r1 x n x r2 with entries c * 2^k, flat C order *)
 Definition RC (r1 n r2 : nat) (k : Z) (cs : list Z) : core Dy :=
   mkcore r1 n r2 (fun a i b => mkDy (nth ((a * n + i) * r2 + b)%nat cs 0) k).
